@@ -30,7 +30,7 @@ CHECKS = {
         'is a machine-checked reachable stuck state. Tied to the code on every run: the stamped hook log of random and forced concurrent scenarios is replayed label '
         'by label on both models, and API-level acceptors (one in flight, blocking Publish returns only after Acks) judge the implementation histories.'),
   note=('Trusted: Coq kernel + vm_compute; Go runtime semantics of mutex/RWMutex/channel/select as modelled; hook stamp discipline + Python mapper; Monitor.v acceptors. '
-        'Partial: "blocking Publish returns" is refuted in general (D9, known finding) and not yet proved under the side condition; per-publisher FIFO is checked on the implementation only.'),
+        'The one-in-flight acceptor is proved sound for the model (C05_one_in_flight_acceptor_sound). Partial: "blocking Publish returns" is refuted in general (D9, known finding) and not proved under a side condition for blocking mode; per-publisher FIFO is an acceptor on the implementation only.'),
   technique='Coq proof (invariants over thread-level LTSs, refutation witnesses by vm_compute) + schedule-replay correspondence check + executable API acceptors',
   design_ref='DESIGN.md section 7 C04/C05/C11/C07'),
 }
